@@ -7,7 +7,7 @@ import math
 import numpy as np
 from hypothesis import strategies as st
 
-from vf import gens, refs
+from vf import forms, gens, refs
 from vf.core import Result, lib
 
 ID = "C07"
@@ -53,6 +53,9 @@ def strategy_(draw):
             "t_std": draw(st.sampled_from([None, None, 60.0, 59.0, 68.0, 32.0])),
             "p_std": draw(st.sampled_from([None, None, 14.7, 14.65, 14.696, 14.73, 15.025])),
             "std_as_kw": draw(st.booleans()),
+            # the form in which temperature and pressure are handed over (Python / numpy scalars, 0-d arrays)
+            "T_form": draw(forms.scalar_form()),
+            "p_form": draw(forms.scalar_form()),
         },
         "oil": oil,
         "oil_fracs": [draw(st.floats(0.0, 1.0)) for _ in range(draw(st.integers(1, 6)))],
@@ -60,6 +63,8 @@ def strategy_(draw):
             "T": draw(st.floats(60.0, 400.0)),
             "p": draw(st.floats(15.0, 15000.0)),
             "S": draw(st.one_of(st.just(0.0), st.floats(0.0, 25.0))),
+            "p_form": draw(forms.scalar_form()),
+            "S_form": draw(forms.scalar_form()),
         },
     }
 
@@ -110,12 +115,21 @@ def check_case(case) -> Result:
 
     res = Result()
     # ------------------------------------------------------------------ gas
-    g = case["gas"]
+    g = dict(case["gas"])
+    tf, pf = g.get("T_form", "float"), g.get("p_form", "float")
+    Tq, pq = forms.representable(g["T"], tf), forms.representable(g["p"], pf)
+    if not (pq > 0 and 1.05 <= (Tq + 459.67) / (g["tpc"] + 459.67) <= 3.0 and pq / g["ppc"] <= 30.0):
+        tf = pf = "float"
+    else:
+        g["T"], g["p"] = Tq, pq
+    res.labels["gas_scalar_forms"] = "float" if (tf, pf) == ("float", "float") else "other"
+    frel = max(forms.rel(tf, 1e-12, 1e-5), forms.rel(pf, 1e-12, 1e-5))
     T, p, tpc, ppc, sg = g["T"], g["p"], g["tpc"], g["ppc"], g["sg"]
+    Tg, pg = forms.scalar(T, tf), forms.scalar(p, pf)  # what the library is given
     tr, pr = (T + 459.67) / (tpc + 459.67), p / ppc
     p2 = min(p * g["ratio"], 30.0 * ppc)
-    z = float(lib("z_factor_DAK", G.z_factor_DAK, T, p, tpc, ppc))
-    rho = float(lib("density_DAK", G.density_DAK, T, p, tpc, ppc, sg))
+    z = float(lib("z_factor_DAK", G.z_factor_DAK, Tg, pg, tpc, ppc))
+    rho = float(lib("density_DAK", G.density_DAK, Tg, pg, tpc, ppc, sg))
     t_std, p_std = g.get("t_std"), g.get("p_std")
     std_kw = {}
     std_pos = ()
@@ -129,22 +143,25 @@ def check_case(case) -> Result:
     else:
         t_std, p_std = 60.0, 14.70
     res.labels["std_conditions"] = "default" if not (std_kw or std_pos) else ("keyword" if std_kw else "positional")
-    bg = float(lib("b_factor_DAK", G.b_factor_DAK, T, p, tpc, ppc, *std_pos, **std_kw))
+    bg = float(lib("b_factor_DAK", G.b_factor_DAK, Tg, pg, tpc, ppc, *std_pos, **std_kw))
     want = p * MW_AIR * sg / (z * R_GAS * (T + 459.67))
-    res.check("C07/gas-density-real-gas-law", abs(rho - want), 1e-12 * abs(want), f"density_DAK={rho!r} pM/(ZRT)={want!r} (Z={z!r}) at T_r={tr!r} p_r={pr!r};")
+    res.check("C07/gas-density-real-gas-law", abs(rho - want), frel * abs(want), f"density_DAK={rho!r} pM/(ZRT)={want!r} (Z={z!r}) at T_r={tr!r} p_r={pr!r};")
     const = MW_AIR * sg * p_std / (R_GAS * (t_std + 459.67) * 5.615)
-    res.check("C07/gas-density-times-Bg", abs(rho * bg - const), 1e-12 * const, f"rho*Bg={rho * bg!r} expected standard-condition mass {const!r} at p={p!r};")
+    res.check("C07/gas-density-times-Bg", abs(rho * bg - const), frel * const, f"rho*Bg={rho * bg!r} expected standard-condition mass {const!r} at p={p!r};")
     if p2 > p * 1.0005:
         rho2 = float(lib("density_DAK", G.density_DAK, T, p2, tpc, ppc, sg))
         bg2 = float(lib("b_factor_DAK", G.b_factor_DAK, T, p2, tpc, ppc, *std_pos, **std_kw))
-        res.check("C07/gas-density-times-Bg", abs(rho2 * bg2 - rho * bg), 1e-12 * const, f"rho*Bg differs between p={p!r} ({rho * bg!r}) and p={p2!r} ({rho2 * bg2!r});")
-        mu1 = float(lib("viscosity_Sutton", G.viscosity_Sutton, T, p, tpc, ppc, sg))
+        res.check("C07/gas-density-times-Bg", abs(rho2 * bg2 - rho * bg), frel * const, f"rho*Bg differs between p={p!r} ({rho * bg!r}) and p={p2!r} ({rho2 * bg2!r});")
+        mu1 = float(lib("viscosity_Sutton", G.viscosity_Sutton, Tg, pg, tpc, ppc, sg))
         mu2 = float(lib("viscosity_Sutton", G.viscosity_Sutton, T, p2, tpc, ppc, sg))
         if not (mu1 > 0 and mu2 > 0 and math.isfinite(mu1) and math.isfinite(mu2)):
             res.bad("C07/gas-viscosity-positive", f"viscosity {mu1!r}, {mu2!r} at p={p!r}, {p2!r} T_r={tr!r}")
         else:
-            res.check("C07/gas-viscosity-increases", max(0.0, mu1 - mu2), 1e-12 * mu1, f"mu({p!r})={mu1!r} > mu({p2!r})={mu2!r} at T_r={tr!r} sg={sg!r};")
+            res.check("C07/gas-viscosity-increases", max(0.0, mu1 - mu2), frel * mu1, f"mu({p!r})={mu1!r} > mu({p2!r})={mu2!r} at T_r={tr!r} sg={sg!r};")
     c_lib, num, _c_var, _c_pub = lib("gas compressibility / density", _gas_consistency, g)
+    if (tf, pf) != ("float", "float"):
+        c_form = float(lib(f"compressibility_DAK(T as {tf}, p as {pf})", G.compressibility_DAK, Tg, pg, tpc, ppc))
+        res.check("C07/scalar-form-irrelevant", abs(c_form - c_lib), max(frel, 1e-11) * abs(c_lib), f"compressibility_DAK(T={T!r} as {tf}, p={p!r} as {pf})={c_form!r} vs the same values as Python floats {c_lib!r};")
     res.check(
         "C07/gas-compressibility-is-dlnrho-dp",
         abs(c_lib - num),
@@ -171,11 +188,15 @@ def check_case(case) -> Result:
             res.check("C07/oil-density-times-Bo", abs(ro * bo - mass), 1e-12 * mass, f"rho_o*Bo={ro * bo!r} stock-tank oil + dissolved gas={mass!r} at p={q!r} p_b={pb!r} oil={o};")
             res.check("C07/oil-density-times-Bo", abs(rho_arr[k] * bo_arr[k] - mass), 1e-11 * mass, f"(array call) rho_o*Bo={rho_arr[k] * bo_arr[k]!r} expected {mass!r} at p={q!r} oil={o};")
     # ------------------------------------------------------------------ water
-    w = case["water"]
-    bw = float(lib("b_water_McCain", W.b_water_McCain, w["T"], w["p"]))
-    rw = float(lib("density_water_McCain", W.density_water_McCain, w["T"], w["p"], w["S"]))
+    w = dict(case["water"])
+    wpf, wsf = w.get("p_form", "float"), w.get("S_form", "float")
+    w["p"], w["S"] = max(15.0, forms.representable(w["p"], wpf)), forms.representable(w["S"], wsf)
+    wrel = max(forms.rel(wpf, 1e-12, 1e-5), forms.rel(wsf, 1e-12, 1e-5))
+    res.labels["water_scalar_forms"] = "float" if (wpf, wsf) == ("float", "float") else "other"
+    bw = float(lib("b_water_McCain", W.b_water_McCain, w["T"], forms.scalar(w["p"], wpf)))
+    rw = float(lib("density_water_McCain", W.density_water_McCain, w["T"], forms.scalar(w["p"], wpf), forms.scalar(w["S"], wsf)))
     std = 62.368 + 0.438603 * w["S"] + 1.60074e-3 * w["S"] ** 2
-    res.check("C07/water-density-times-Bw", abs(rw * bw - std), 1e-12 * std, f"rho_w*Bw={rw * bw!r} brine density at standard conditions={std!r} for {w};")
+    res.check("C07/water-density-times-Bw", abs(rw * bw - std), wrel * std, f"rho_w*Bw={rw * bw!r} brine density at standard conditions={std!r} for {w};")
     res.nontrivial = pr > 0.5 and straddle
     res.labels["gas_pr_band"] = "<0.5" if pr < 0.5 else ("0.5-5" if pr < 5 else ("5-16" if pr < 16 else "16-30"))
     res.labels["gas_tr_band"] = "1.05-1.2" if tr < 1.2 else ("1.2-1.5" if tr < 1.5 else "1.5-3")
